@@ -59,6 +59,7 @@ H={
  'C15-r10a':"missed at first; caught since the probe at the end of every sio history has one uncompilable specification among seven good updates and demands that the crew reports exactly what it did",
  'C15-r10b':"missed at first; caught since the sio timer scenarios (C17's) also run for C15",
  'C18-r10b':"NOT CAUGHT: FuncAction.Exec gathers the permanent bindings from the caller's map after the action returned; shows only when the owner of the state changes its map while the call is in flight",
+ 'C20-r10a':"missed at first; caught since uncompiled tools specifications sometimes carry a mistyped branching type",
  'C08-r10a':"caught at once; re-made on top of the repair D58 afterwards and caught again",
 }
 for d in sys.argv[1:]:
